@@ -261,23 +261,9 @@ def _apply_property(r):
     return None
 
 
-_APPLIER_OBL = [
-    {"name": "Shape_Applier", "facts": ["skel_Apply", "skel_applyCreateOperation", "skel_applyUpdateOperation", "skel_applyDeactivateOperation",
-                                        "skel_applyRecoverOperation", "lit_applyCreateOperation", "lit_applyUpdateOperation",
-                                        "lit_applyDeactivateOperation", "lit_applyRecoverOperation"]},
-]
-_PARSER_FACTS = ["skel_Parse", "skel_ParseOperation", "skel_ParseCreateOperation", "skel_ValidateDelta", "skel_validateMultihash", "skel_validateDeltaSize",
-                 "skel_ValidateSuffixData", "skel_ParseUpdateOperation", "skel_ParseSignedDataForUpdate", "skel_validateUpdateRequest",
-                 "skel_validateSignedDataForUpdate", "skel_ParseRecoverOperation", "skel_ParseSignedDataForRecover", "skel_validateSignedDataForRecovery",
-                 "skel_parseSignedData", "skel_validateProtectedHeaders", "skel_validateSigningKey", "skel_validateCommitment", "skel_validateNonce",
-                 "skel_validateRecoverRequest", "skel_ParseDeactivateOperation", "skel_ParseSignedDataForDeactivate", "skel_validateDeactivateRequest",
-                 "skel_GetRevealValue", "skel_GetCommitment", "lit_Parse", "lit_ParseCreateOperation", "lit_ParseUpdateOperation",
-                 "lit_ParseRecoverOperation", "lit_ParseDeactivateOperation"]
-_PARSER_OBL = [{"name": "Shape_Parser", "facts": _PARSER_FACTS}]
-_JWS_FACTS = ["skel_ParseJWS", "skel_VerifyJWS", "skel_parseCompacted", "skel_parseCompactedPayload", "skel_parseCompactedHeaders", "skel_signingInput",
-              "skel_checkJWSHeaders", "skel_VerifySignature", "skel_verifyECSignature", "skel_verifyEd25519Signature", "skel_GetED25519PublicKey",
-              "skel_parseEllipticCurve"]
-_JWS_OBL = [{"name": "Shape_Jws", "facts": _JWS_FACTS}]
+_APPLIER_OBL = [{"name": "Shape_Applier", "facts": "module:Applier"}]
+_PARSER_OBL = [{"name": "Shape_Parser", "facts": "module:Parser"}]
+_JWS_OBL = [{"name": "Shape_Jws", "facts": "module:Jws"}]
 _APPLY_TRUST = ["signature verdicts: the harness's own verifier (Go crypto/ecdsa, crypto/ed25519, btcec curve parameters) on the (key, signing input, signature) triple "
                 "the harness derives with its own framing code; the model derives the triple itself and only looks the verdict up"]
 
@@ -397,6 +383,52 @@ PROPS["C12"] = {
                   "covered by the theorem; the snapshot comparison of the two streams covers them at run time.",
     "level_note": "Trusted: Lean kernel; the extractor's translation of Go statements into the IR (views: ParsePublicKeys/ParseServices/StringArray/method calls return aliases of their "
                   "receiver or first argument; other package-qualified calls return fresh values; sort.*/delete/copy write their first argument); harness snapshots.",
+}
+
+_KEYS_OBL = [{"name": "Shape_Keys", "facts": "module:Keys"}]
+
+PROPS["C15"] = {
+    "theorem_modules": ["Sidetree.Props.C15"],
+    "prescribes": "Sidetree.Jws.parse / Jws.verify (Props.C15) with the oracle verdict",
+    "obligations": _JWS_OBL + _KEYS_OBL,
+    "streams": [{"gen": "C15sign", "quick": 1500, "thorough": 60000}, {"gen": "C15", "quick": 4000, "thorough": 200000}],
+    "label": lambda r: _lab(r, r["case"].get("kt", ""), r["model"].get("verify")),
+    "nontrivial": lambda r: r["model"].get("verify") is not None,
+    "shape": lambda r: [r["case"].get("compact"), r["case"].get("jwk"), r["case"].get("payload"), r["case"].get("d"), r["case"].get("seed")],
+    "rule": "(a) for each of the five key types (EC keys with a leading zero byte in a coordinate over-represented) and random payloads: sign with the library's own signers "
+            "(ecsigner / edsigner through signutil.SignPayload), derive the JWK with pubkey.GetPublicKeyJWK, verify with jwsutil.VerifyJWS; the harness additionally verifies the "
+            "produced signature itself with Go's standard library and checks the fixed signature width and the headers. (b) compact strings signed by the harness's own signer, intact "
+            "and tampered: single-bit changes in each segment, other key of the same / another type, signatures of the wrong length (shorter, longer, doubled), every malformed split, "
+            "bad base64, header without alg / not an object, unsupported kty/crv, header or payload changed without re-signing, r or s with a leading zero byte (rejection sampling), "
+            "header respelled with the same content, off-curve and wrong-width keys. Non-trivial = verification attempted; distinct = distinct (string, key).",
+    "technique": "Lean 4 theorems on JWS framing and fixed-width r||s + oracle verdicts from Go's standard library + differential correspondence (partial)",
+    "level_text": "PARTIAL (crypto half). Proved in Lean: a successful parse means three segments that decode, a JSON-object header with alg, non-empty payload and signature; any other "
+                  "segment count and the JSON serialization are refused; the verdict of VerifyJWS is the oracle's verdict on exactly (key, decoded signature bytes, signing input built from "
+                  "the re-marshalled headers and the payload); the signing input determines header bytes and payload bytes (injectivity through base64url and the dot separator); r and s "
+                  "survive the fixed-width encoding, whose length is exactly twice the coordinate width, and any other length is refused. NOT provable here: that a signature verifies "
+                  "only under the matching key and only over the same bytes (ECDSA/EdDSA unforgeability) - the oracle is Go's standard library and the stream compares the "
+                  "implementation against it on every tampering.",
+    "level_note": "Trusted: Lean kernel; extractor; harness verifier (crypto/ecdsa, crypto/ed25519, curve parameters of btcec). go-jose's JSON decoding of headers is modelled on UTF-8 input.",
+    "trusted": _APPLY_TRUST,
+}
+
+PROPS["C16"] = {
+    "theorem_modules": ["Sidetree.Props.C16"],
+    "prescribes": "Sidetree.ecToJwk / ecFromJwk / edFromJwk (Props.C16.ec_roundtrip, fixed_width, reject_invalid)",
+    "obligations": _KEYS_OBL + _JWS_OBL,
+    "streams": [{"gen": "C16", "quick": 1500, "thorough": 60000}, {"gen": "C16parse", "quick": 4000, "thorough": 200000}],
+    "label": lambda r: _lab(r, r["model"].get("parse", r["model"].get("to"))),
+    "shape": lambda r: r["case"].get("jwk") or [r["case"].get("curve"), r["case"].get("x"), r["case"].get("y")],
+    "rule": "(a) public keys of the five types, half of the EC keys having a coordinate with one or two leading zero bytes (rejection sampling), converted with pubkey.GetPublicKeyJWK "
+            "and read back with jwsutil.JWK.UnmarshalJSON / GetED25519PublicKey; compared: kty, crv, the exact base64url coordinates, the recovered coordinates. (b) JWKs to be read: "
+            "valid, one bit of a coordinate flipped (off-curve), coordinate with a byte stripped / a zero byte added / minimal encoding, curve name swapped, coordinate missing / "
+            "empty / bad base64, Ed25519 x of 31, 33, 64, 0 bytes. All cases non-trivial; distinct = distinct key / JWK.",
+    "technique": "Lean 4 theorems with the concrete curve equations (round trip, fixed width, rejection) + differential correspondence (partial for Ed25519 point validity)",
+    "level_text": "Proved in Lean for P-256, P-384, P-521 and secp256k1 with their concrete field primes and coefficients: every on-curve point converts to a JWK with kty EC and the curve's "
+                  "name whose coordinates decode to exactly the curve's width (leading zeros preserved), and reading that JWK back yields the same curve and point; a JWK is read only if "
+                  "the curve is one of the four, both coordinates are present with exactly that width and the point satisfies the curve equation; the encoding is a function of the key "
+                  "alone. Ed25519: the 32-byte key round-trips and only 32-byte x values are accepted (whether the 32 bytes are a valid point is not part of the library's check).",
+    "level_note": "Trusted: Lean kernel (incl. `decide +kernel` for the four prime-width facts); extractor; harness. go-jose's EC handling is modelled, not verified; the stream validates it.",
 }
 
 NOT_CLAIMED = {}
